@@ -17,6 +17,10 @@
     7. from entries to whole steps: a step the documentation refuses is refused, a step the
        documentation accepts is accepted — for every class, every configuration
     8. the defaults of the input section
+    9. `PandoraMachine.check_conf` on a fresh machine: `pipeline_cfg` = the configured steps, in
+       order, each with what its class returned (both rounds)
+   10. `update_conf` on a dictionary of leaves: user values stored (rewritten) at their keys,
+       defaults kept, positions
 -/
 import PandoraModel.Model.ConfigSpec
 import PandoraModel.Generated.Schemas
@@ -1589,6 +1593,334 @@ theorem input_defaults_documented :
         ("left", .obj [("nodata", .int (-9999)), ("mask", .null), ("classif", .null), ("segm", .null)]),
         ("right", .obj [("nodata", .int (-9999)), ("mask", .null), ("classif", .null), ("segm", .null),
                         ("disp", .null)])])] := by decide
+
+
+/-! ### 9. The machine's loop on a fresh machine -/
+
+theorem stepCallback_ok {o : Oracle} {fl : MachineFlags} {reg : List KindDesc} {kind : Machine.Kind}
+    {name : String} {stepCfg : JVal} {l r : ImgInfo} {m m' : CState}
+    (h : stepCallback o fl reg kind name stepCfg l r m = .ok m') :
+    ∃ cfg kd out, stepCfg = .obj cfg ∧ kindDesc? reg kind.name = some kd ∧
+      construct o kd l r cfg = .ok out ∧
+      m'.pipelineCfg = Dict.setKey m.pipelineCfg name (.obj out) := by
+  unfold stepCallback at h
+  cases stepCfg with
+  | obj cfg =>
+    simp only at h
+    cases hk : kindDesc? reg kind.name with
+    | none => simp [hk] at h
+    | some kd =>
+      simp only [hk] at h
+      cases hc : construct o kd l r cfg with
+      | error e => cases kind <;> simp [hc] at h <;> (try split at h) <;> simp_all
+      | ok out =>
+        refine ⟨cfg, kd, out, rfl, rfl, hc, ?_⟩
+        cases kind <;> simp only [hc] at h
+        all_goals (try split at h)
+        all_goals (try (cases h; rfl))
+        all_goals (try simp at h)
+        all_goals (try (split at h <;> first | (cases h; rfl) | simp at h))
+  | _ => simp at h
+
+
+theorem setKey_same (d : Dict) (k : String) (v : JVal) (h : Dict.lookup d k = some v) :
+    Dict.setKey d k v = d := by
+  induction d with
+  | nil => simp [Dict.lookup] at h
+  | cons kv rest ih =>
+    obtain ⟨k', v'⟩ := kv
+    by_cases e : k' = k
+    · subst e; simp [Dict.lookup] at h; subst h; simp [Dict.setKey]
+    · simp [Dict.lookup, e] at h; simp [Dict.setKey, e, ih h]
+
+/-- what the first round of the loop leaves in `pipeline_cfg` when the steps are new to it: the
+    steps, appended in the order of the configuration, each holding what `Abstract<Kind>(**cfg)`
+    returned -/
+theorem checkLoop_stores (o : Oracle) (fl : MachineFlags) (reg : List KindDesc) (pipeline : Dict)
+    (l r : ImgInfo) :
+    ∀ (names : List String) (st : Machine.St) (m m' : CState),
+      checkLoop o fl reg pipeline l r st names m = .ok m' → names.Nodup →
+      (∀ n ∈ names, Dict.lookup m.pipelineCfg n = none) →
+      Dict.keys m'.pipelineCfg = Dict.keys m.pipelineCfg ++ names ∧
+      (∀ k, k ∉ names → Dict.lookup m'.pipelineCfg k = Dict.lookup m.pipelineCfg k) ∧
+      (∀ n ∈ names, ∃ kind cfg kd out,
+        Machine.Kind.ofName? (Machine.kindOf n) = some kind ∧
+        Dict.lookup pipeline n = some (.obj cfg) ∧ kindDesc? reg kind.name = some kd ∧
+        construct o kd l r cfg = .ok out ∧ Dict.lookup m'.pipelineCfg n = some (.obj out)) := by
+  intro names
+  induction names with
+  | nil =>
+    intro st m m' h _ _
+    simp [checkLoop] at h
+    subst h
+    simp
+  | cons n ns ih =>
+    intro st m m' h hnd hfresh
+    simp only [checkLoop] at h
+    cases hk : Machine.Kind.ofName? (Machine.kindOf n) with
+    | none => simp [hk] at h
+    | some kind =>
+      simp only [hk] at h
+      cases hdoc : Machine.documented st kind with
+      | none => simp [hdoc] at h
+      | some st' =>
+        simp only [hdoc] at h
+        cases hcb : stepCallback o fl reg kind n ((Dict.lookup pipeline n).getD .null) l r m with
+        | error e => simp [hcb] at h
+        | ok m1 =>
+          simp only [hcb] at h
+          obtain ⟨cfg, kd, out, hobj, hkd, hcons, hpc⟩ := stepCallback_ok hcb
+          have hnd' : ns.Nodup := (List.nodup_cons.1 hnd).2
+          have hnn : n ∉ ns := (List.nodup_cons.1 hnd).1
+          have hln : Dict.lookup m.pipelineCfg n = none := hfresh n (by simp)
+          have hm1 : m1.pipelineCfg = m.pipelineCfg ++ [(n, .obj out)] := by
+            rw [hpc, setKey_absent _ _ _ hln]
+          have hfresh1 : ∀ x ∈ ns, Dict.lookup m1.pipelineCfg x = none := by
+            intro x hx
+            rw [hpc, lookup_setKey]
+            have : n ≠ x := fun e => hnn (e ▸ hx)
+            simp [this, hfresh x (List.mem_cons_of_mem _ hx)]
+          obtain ⟨hkeys, hother, hsteps⟩ := ih st' m1 m' h hnd' hfresh1
+          have hlp : Dict.lookup pipeline n = some (.obj cfg) := by
+            cases hl : Dict.lookup pipeline n with
+            | none => simp [hl] at hobj
+            | some v => simp [hl] at hobj; rw [hobj]
+          refine ⟨?_, ?_, ?_⟩
+          · rw [hkeys, hm1]; simp [Dict.keys]
+          · intro k hk'
+            simp only [List.mem_cons, not_or] at hk'
+            rw [hother k hk'.2, hpc, lookup_setKey]
+            simp [Ne.symm hk'.1]
+          · intro x hx
+            rcases List.mem_cons.1 hx with rfl | hx'
+            · refine ⟨kind, cfg, kd, out, hk, hlp, hkd, hcons, ?_⟩
+              rw [hother _ hnn, hpc, lookup_setKey]; simp
+            · exact hsteps x hx'
+
+
+/-! the right/left round checks the same steps with the images swapped: nothing depends on which
+    image is which except the refusal of grids, which is symmetric -/
+
+theorem runAction_swap (l r : ImgInfo) (cfg : Dict) (a : Action) :
+    runAction l r cfg a = runAction r l cfg a := by
+  cases a <;> simp [runAction, Bool.or_comm]
+
+theorem runActions_swap (l r : ImgInfo) (acts : List Action) :
+    ∀ cfg, runActions l r acts cfg = runActions r l acts cfg := by
+  induction acts with
+  | nil => intro cfg; rfl
+  | cons a rest ih =>
+    intro cfg
+    simp only [runActions, runAction_swap l r cfg a]
+    cases runAction r l cfg a with
+    | error e => rfl
+    | ok cfg' => exact ih cfg'
+
+theorem construct_swap (o : Oracle) (kd : KindDesc) (l r : ImgInfo) (cfg : Dict) :
+    construct o kd l r cfg = construct o kd r l cfg := by
+  have hc : ∀ c : ClassDesc, classCheck o c l r cfg = classCheck o c r l cfg := by
+    intro c; simp only [classCheck, runActions_swap l r]
+  unfold construct
+  simp only [hc]
+
+/-- a round over steps whose completed configuration is already stored leaves `pipeline_cfg` as it is -/
+theorem checkLoop_same (o : Oracle) (fl : MachineFlags) (reg : List KindDesc) (pipeline : Dict)
+    (l r : ImgInfo) :
+    ∀ (names : List String) (st : Machine.St) (m m' : CState),
+      checkLoop o fl reg pipeline l r st names m = .ok m' →
+      (∀ n ∈ names, ∀ kind cfg kd out, Machine.Kind.ofName? (Machine.kindOf n) = some kind →
+        Dict.lookup pipeline n = some (.obj cfg) → kindDesc? reg kind.name = some kd →
+        construct o kd l r cfg = .ok out → Dict.lookup m.pipelineCfg n = some (.obj out)) →
+      m'.pipelineCfg = m.pipelineCfg := by
+  intro names
+  induction names with
+  | nil =>
+    intro st m m' h _
+    simp [checkLoop] at h
+    subst h; rfl
+  | cons n ns ih =>
+    intro st m m' h hstored
+    simp only [checkLoop] at h
+    cases hk : Machine.Kind.ofName? (Machine.kindOf n) with
+    | none => simp [hk] at h
+    | some kind =>
+      simp only [hk] at h
+      cases hdoc : Machine.documented st kind with
+      | none => simp [hdoc] at h
+      | some st' =>
+        simp only [hdoc] at h
+        cases hcb : stepCallback o fl reg kind n ((Dict.lookup pipeline n).getD .null) l r m with
+        | error e => simp [hcb] at h
+        | ok m1 =>
+          simp only [hcb] at h
+          obtain ⟨cfg, kd, out, hobj, hkd, hcons, hpc⟩ := stepCallback_ok hcb
+          have hlp : Dict.lookup pipeline n = some (.obj cfg) := by
+            cases hl : Dict.lookup pipeline n with
+            | none => simp [hl] at hobj
+            | some v => simp [hl] at hobj; rw [hobj]
+          have hsame : m1.pipelineCfg = m.pipelineCfg := by
+            rw [hpc]
+            exact setKey_same _ _ _ (hstored n (by simp) kind cfg kd out hk hlp hkd hcons)
+          have := ih st' m1 m' h (by
+            intro x hx kind' cfg' kd' out' h1 h2 h3 h4
+            rw [hsame]
+            exact hstored x (List.mem_cons_of_mem _ hx) kind' cfg' kd' out' h1 h2 h3 h4)
+          rw [this, hsame]
+
+/-- **`PandoraMachine.check_conf` on a fresh machine** (or one that empties `pipeline_cfg` first):
+    after both rounds `pipeline_cfg` holds exactly the configured steps, in the configured order,
+    each with the dictionary its class returned -/
+theorem machineCheck_fresh (o : Oracle) (fl : MachineFlags) (reg : List KindDesc) (pipeline : Dict)
+    (l r : ImgInfo) (m m' : CState)
+    (hfresh : m.pipelineCfg = [] ∨ fl.resetPipelineCfg = true)
+    (hnd : (Dict.keys pipeline).Nodup)
+    (h : machineCheck o fl reg pipeline l r m = .ok m') :
+    Dict.keys m'.pipelineCfg = Dict.keys pipeline ∧
+    (∀ n ∈ Dict.keys pipeline, ∃ kind cfg kd out,
+      Machine.Kind.ofName? (Machine.kindOf n) = some kind ∧
+      Dict.lookup pipeline n = some (.obj cfg) ∧ kindDesc? reg kind.name = some kd ∧
+      construct o kd l r cfg = .ok out ∧ Dict.lookup m'.pipelineCfg n = some (.obj out)) := by
+  unfold machineCheck at h
+  -- the machine state the first round starts from has an empty pipeline_cfg
+  have hm0 : (if fl.resetPipelineCfg = true then { m with pipelineCfg := [] } else m).pipelineCfg = [] := by
+    rcases hfresh with h0 | h0
+    · by_cases hr : fl.resetPipelineCfg = true <;> simp [hr, h0]
+    · simp [h0]
+  generalize (if fl.resetPipelineCfg = true then { m with pipelineCfg := [] } else m) = m0 at h hm0
+  simp only at h
+  cases h1 : checkLoop o fl reg pipeline l r .begin (Dict.keys pipeline) m0 with
+  | error e => simp [h1] at h
+  | ok m1 =>
+    simp only [h1] at h
+    obtain ⟨hkeys, _, hsteps⟩ := checkLoop_stores o fl reg pipeline l r (Dict.keys pipeline) .begin m0 m1 h1 hnd
+      (by intro n _; simp [hm0, Dict.lookup])
+    rw [hm0] at hkeys
+    simp only [Dict.keys, List.map_nil, List.nil_append] at hkeys
+    by_cases hr : m1.rightDispMap = true
+    · simp only [hr, if_true] at h
+      have hsame := checkLoop_same o fl reg pipeline r l (Dict.keys pipeline) .begin m1 m' h (by
+        intro n hn kind cfg kd out hk hlp hkd hcons
+        obtain ⟨kind', cfg', kd', out', hk', hlp', hkd', hcons', hlook'⟩ := hsteps n hn
+        rw [hk] at hk'; cases hk'
+        rw [hlp] at hlp'; cases hlp'
+        rw [hkd] at hkd'; cases hkd'
+        rw [construct_swap, hcons'] at hcons; cases hcons
+        exact hlook')
+      rw [hsame]
+      exact ⟨hkeys, hsteps⟩
+    · simp only [hr] at h
+      cases h
+      exact ⟨hkeys, hsteps⟩
+
+
+/-! ### 10. `update_conf` -/
+
+/-- a value `update_conf` stores as it is: not a dictionary, not one of the three magic strings -/
+def fixedLeaf (v : JVal) : Bool := !v.isObj && decide (rewriteLeaf v = v)
+
+theorem updateVal_fixedLeaf (g : Bool) (dv : Option JVal) (v : JVal) (h : fixedLeaf v = true) :
+    updateVal g dv v = .ok v := by
+  simp only [fixedLeaf, Bool.and_eq_true, Bool.not_eq_true', decide_eq_true_eq] at h
+  cases v <;> simp [JVal.isObj] at h <;> simp [updateVal, h]
+
+theorem rewriteLeaf_idem (v : JVal) : rewriteLeaf (rewriteLeaf v) = rewriteLeaf v := by
+  unfold rewriteLeaf
+  by_cases h1 : v = .str "NaN"
+  · simp [h1]
+  · by_cases h2 : v = .str "inf"
+    · simp [h2]
+    · by_cases h3 : v = .str "-inf"
+      · simp [h3]
+      · simp [h1, h2, h3]
+
+/-- a leaf of the user's dictionary is stored rewritten (`"NaN"`, `"inf"`, `"-inf"` → floats) -/
+theorem updateVal_leaf (g : Bool) (dv : Option JVal) (v : JVal) (h : v.isObj = false) :
+    updateVal g dv v = .ok (rewriteLeaf v) := by
+  cases v <;> simp [JVal.isObj] at h <;> simp [updateVal]
+
+/-- two dictionaries without duplicate keys, with the same keys in the same order and the same
+    lookups, are equal -/
+theorem dict_ext : ∀ (a b : Dict), Dict.keys a = Dict.keys b → (Dict.keys a).Nodup →
+    (∀ k, Dict.lookup a k = Dict.lookup b k) → a = b := by
+  intro a
+  induction a with
+  | nil => intro b hk _ _; cases b <;> simp [Dict.keys] at hk ⊢
+  | cons x xs ih =>
+    intro b hk hnd hl
+    cases b with
+    | nil => simp [Dict.keys] at hk
+    | cons y ys =>
+      obtain ⟨k, v⟩ := x
+      obtain ⟨k', v'⟩ := y
+      simp only [Dict.keys, List.map_cons, List.cons.injEq] at hk
+      obtain ⟨rfl, hk2⟩ := hk
+      simp only [Dict.keys, List.map_cons, List.nodup_cons] at hnd
+      have hv : v = v' := by
+        have := hl k
+        simpa [Dict.lookup] using this
+      subst hv
+      have : xs = ys := by
+        apply ih ys hk2 hnd.2
+        intro q
+        by_cases e : k = q
+        · subst e
+          have h1 : Dict.lookup xs k = none := (lookup_none_iff xs k).2 hnd.1
+          have h2 : Dict.lookup ys k = none := by
+            apply (lookup_none_iff ys k).2
+            have : Dict.keys ys = Dict.keys xs := hk2.symm
+            rw [this]; exact hnd.1
+          rw [h1, h2]
+        · have := hl q
+          simpa [Dict.lookup, e] using this
+      rw [this]
+
+/-- **`update_conf` on a dictionary of leaves**: the default's keys keep their position, the user's
+    new keys are appended in the user's order, every user value is stored (rewritten), every
+    default the user did not override is kept -/
+theorem updateConf_leaves (g : Bool) :
+    ∀ (items cur : Dict), (∀ kv ∈ items, kv.2.isObj = false) → (Dict.keys items).Nodup →
+      ∃ out, updateConf g cur items = .ok out ∧
+        Dict.keys out = Dict.keys cur ++ (Dict.keys items).filter (fun k => !(Dict.keys cur).contains k) ∧
+        (∀ k, Dict.lookup out k =
+          match Dict.lookup items k with
+          | some v => some (rewriteLeaf v)
+          | none => Dict.lookup cur k) := by
+  intro items
+  induction items with
+  | nil => intro cur _ _; exact ⟨cur, by simp [updateConf], by simp [Dict.keys], by simp [Dict.lookup]⟩
+  | cons kv rest ih =>
+    intro cur hleaf hnd
+    obtain ⟨k, v⟩ := kv
+    have hv : v.isObj = false := hleaf (k, v) (by simp)
+    simp only [Dict.keys, List.map_cons, List.nodup_cons] at hnd
+    obtain ⟨out, hrun, hkeys, hlook⟩ := ih (Dict.setKey cur k (rewriteLeaf v))
+      (fun kv h => hleaf kv (List.mem_cons_of_mem _ h)) hnd.2
+    refine ⟨out, by simp [updateConf, updateVal_leaf g _ v hv, hrun], ?_, ?_⟩
+    · rw [hkeys]
+      cases hl : Dict.lookup cur k with
+      | none =>
+        have hm : k ∉ Dict.keys cur := (lookup_none_iff cur k).1 hl
+        rw [setKey_absent cur k _ hl]
+        simp only [Dict.keys, List.map_append, List.map_cons, List.map_nil, List.filter_cons]
+        simp only [Dict.keys] at hm
+        simp [hm]
+        apply List.filter_congr
+        intro x hx
+        have : x ≠ k := fun e => hnd.1 (e ▸ hx)
+        simp [this]
+      | some old =>
+        have hm : k ∈ Dict.keys cur := by rw [← hasKey_iff_mem_keys]; simp [Dict.hasKey, hl]
+        rw [keys_setKey_present cur k _ (by simp [hl])]
+        simp only [Dict.keys, List.map_cons, List.filter_cons]
+        simp only [Dict.keys] at hm
+        simp [hm]
+    · intro q
+      rw [hlook q]
+      by_cases e : k = q
+      · subst e
+        have : Dict.lookup rest k = none := (lookup_none_iff rest k).2 hnd.1
+        simp [this, Dict.lookup, lookup_setKey]
+      · simp [Dict.lookup, e, lookup_setKey]
 
 
 end Pandora.C05
